@@ -557,6 +557,9 @@ class Transport(threading.Thread, ClosingContextManager):
         self.auth_handler = None
         # response Message from an arbitrary global request
         self.global_response = None
+        # signalled only by the reply to a global_request(wait=True); kept
+        # apart from completion_event, which key (re)negotiation also sets
+        self._global_response_event = None
         # user-defined event callbacks
         self.completion_event = None
         # how long (seconds) to wait for the SSH banner
@@ -1294,7 +1297,10 @@ class Transport(threading.Thread, ClosingContextManager):
             ``None`` if the request was denied.
         """
         if wait:
-            self.completion_event = threading.Event()
+            # forget the previous request's answer, and wait on an event that
+            # nothing but the answer to a global request sets
+            self.global_response = None
+            self._global_response_event = event = threading.Event()
         m = Message()
         m.add_byte(cMSG_GLOBAL_REQUEST)
         m.add_string(kind)
@@ -1306,10 +1312,10 @@ class Transport(threading.Thread, ClosingContextManager):
         if not wait:
             return None
         while True:
-            self.completion_event.wait(0.1)
+            event.wait(0.1)
             if not self.active:
                 return None
-            if self.completion_event.is_set():
+            if event.is_set():
                 break
         return self.global_response
 
@@ -3002,14 +3008,14 @@ class Transport(threading.Thread, ClosingContextManager):
     def _parse_request_success(self, m):
         self._log(DEBUG, "Global request successful.")
         self.global_response = m
-        if self.completion_event is not None:
-            self.completion_event.set()
+        if self._global_response_event is not None:
+            self._global_response_event.set()
 
     def _parse_request_failure(self, m):
         self._log(DEBUG, "Global request denied.")
         self.global_response = None
-        if self.completion_event is not None:
-            self.completion_event.set()
+        if self._global_response_event is not None:
+            self._global_response_event.set()
 
     def _parse_channel_open_success(self, m):
         chanid = m.get_int()
